@@ -5,6 +5,7 @@ module so that the generic theorems of Props/C09 still check on a tree where one
 import JanetModel.Gen.MarshCode
 import JanetModel.Gen.Marsh
 import JanetModel.Marsh.Abstract
+import JanetModel.Marsh.AbsDepthLemmas
 
 namespace JanetModel.Marsh.CodeObligations
 open JanetModel.Gen.MarshCode JanetModel.Gen.Marsh JanetModel.Marsh
@@ -64,5 +65,28 @@ theorem fiber_wire_bits_stripped : (fiberMemStripMask : Int) = fiberHasEnv + fib
 stack frame (a tail call clears `frame->env` and keeps `frame->flags`; the next image of the same fiber then announced an
 environment that was not written).  On a tree without patches/fix-C09-fiber-frame-hasenv-stale.diff this is false. -/
 theorem marshal_leaves_frames_unchanged : marshalStoresFrameHasEnv = 0 := by decide
+
+/-- **The abstract-hook path keeps counting depth** (tie for Marsh/AbsDepth.lean and for the `g` of `marshalHook` /
+`unmarshalHook`): both `JanetMarshalContext` initialisers of the current marsh.c take their `flags` field from the local depth
+counter (`flags + k`; `…CtxLocal = 1`), and the four increments of each side are the ones the boundary tests and the
+documentation of the model assume (abstract → type name: 1, abstract → hook item: 2).  With seed C19-8
+(`{st, NULL, st->flags, NULL, at}`) `mAbsCtxLocal = 0`: every value marshalled through an abstract restarts at depth 1. -/
+theorem abstract_depths_match_model :
+    mAbsCtxLocal = 1 ∧ uAbsCtxLocal = 1 ∧
+    mAbsCall = 0 ∧ mAbsName = 1 ∧ mAbsCtx = 1 ∧ mAbsItem = 1 ∧
+    uAbsCall = 0 ∧ uAbsName = 1 ∧ uAbsCtx = 1 ∧ uAbsItem = 1 := by decide
+
+/-- **marshal / unmarshal depth symmetry for the abstract path**: the two sides have the same increments, so
+(`Props.C09.abstract_depth_symmetric`) `marshal` accepts a value nested through abstract payloads at depth `d` iff `unmarshal`
+accepts its bytes at depth `d`. -/
+theorem abstract_depth_increments_equal : AbsDepth.mIncs = AbsDepth.uIncs ∧ mAbsCtxLocal = uAbsCtxLocal := by decide
+
+/-- … and in particular no reader edge is deeper than its writer edge: **every value nested through abstract payloads that the
+current `marshal` writes at any depth, the current `unmarshal` reads back** (instance of `Props.C09.abstract_depth_roundtrip`
+at the regenerated increments). -/
+theorem abstract_nesting_roundtrips (v : AbsDepth.DV) (fm fu : Nat) (h : fm ≤ fu) (bs tl : List AbsDepth.Tok)
+    (hm : AbsDepth.marshalD AbsDepth.mIncs fm v = some bs) :
+    AbsDepth.unmarshalD AbsDepth.uIncs fu (bs ++ tl) = some (v, tl) :=
+  AbsDepth.roundtripD AbsDepth.mIncs AbsDepth.uIncs (by decide) (by decide) v fm fu h bs tl hm
 
 end JanetModel.Marsh.CodeObligations
